@@ -2,7 +2,7 @@
 // design.postprocess() (records whether it throws the CDC DesignError) and, separately, calls
 // hlim::inferClockDomains / hlim::detectUnguardedCDCCrossings directly on the graph before and after
 // post-processing, dumping the graph structure, the per-port domain map and the flagged nodes.
-// Usage: c12 <seed> <ncases> <statements-per-design>
+// Usage: c12 <seed> <ncases> <statements-per-design>   |   c12 replay <subseed> <statements-per-design>  (one design, as printed in its `case` line)
 #include <gatery/pch.h>
 #include <gatery/frontend.h>
 #include <gatery/scl/cdc.h>
@@ -22,6 +22,7 @@
 #include <filesystem>
 #include <fstream>
 #include <unistd.h>
+#include <csignal>
 #include <fcntl.h>
 #include <sys/stat.h>
 
@@ -154,7 +155,7 @@ static void dumpGraph(const char *tag, hlim::Circuit &c)
 
 static const int UNK = -1; // label of a clocked source whose clock slot is empty
 
-struct GClock { Clock clk; int ps; };
+struct GClock { Clock clk; int ps; bool phaseSync = true; /* DerivedClock copies the parent's flag */ };
 
 struct GSig {
 	UInt sig;
@@ -173,10 +174,13 @@ struct Gen {
 	bool intent = false;             // generator's ground truth: the design contains an unmarked / wrongly marked crossing
 	std::map<std::string, unsigned> hist;
 	int nextPs = 0;
+	int defaultPs = 0;
+	bool multiDomain = true;
 	unsigned nameCtr = 0;
 	// one optional memory
 	std::unique_ptr<Memory<UInt>> mem;
 	bool memNoConflicts = false, memHasPort = false;
+	size_t memWriteClk = ~size_t(0);
 	std::set<int> memOrderLabels;
 	// hierarchy
 	std::vector<std::unique_ptr<Area>> areas;
@@ -259,8 +263,18 @@ struct Gen {
 		return c[rng.below(c.size())];
 	}
 
+	// `samePin`: name and frequency are those of the parent. The pin is shared only if, in addition, the derived clock is phase
+	// synchronous with its parent - a flag DerivedClock's constructor copies from the parent (hlim/Clock.cpp:243-256).
+	void addDerived(size_t parent, const ClockConfig &cfg, bool samePin) {
+		bool share = samePin && clocks[parent].phaseSync;
+		GClock c{ clocks[parent].clk.deriveClock(cfg), share ? clocks[parent].ps : nextPs++, clocks[parent].phaseSync };
+		clocks.push_back(c);
+		if (samePin) hist[share ? "clk.derived.samepin" : "clk.derived.samename.otherpin"]++;
+	}
+
 	void makeClocks() {
 		// DesignScope keeps a default clock ("GateryDefaultClock") in scope: pins created outside any user ClockScope belong to it
+		defaultPs = nextPs;
 		clocks.push_back({ ClockScope::getClk(), nextPs++ });
 		size_t nroot = 1 + rng.below(3);
 		for (size_t i = 0; i < nroot; i++) {
@@ -278,32 +292,32 @@ struct Gen {
 			switch (rng.below(7)) {
 				case 0: case 1: // only register attributes differ: same pin
 					cfg.resetType = rng.chance(1, 2) ? Clock::ResetType::SYNCHRONOUS : Clock::ResetType::ASYNCHRONOUS;
-					clocks.push_back({ clocks[parent].clk.deriveClock(cfg), clocks[parent].ps }); hist["clk.derived.samepin"]++; break;
+					addDerived(parent, cfg, true); break;
 				case 2: // trigger/reset name differ: same pin
 					cfg.resetName = "rst" + std::to_string(i);
 					cfg.synchronizationRegister = true;
-					clocks.push_back({ clocks[parent].clk.deriveClock(cfg), clocks[parent].ps }); hist["clk.derived.samepin"]++; break;
+					addDerived(parent, cfg, true); break;
 				case 3:
 					cfg.frequencyMultiplier = hlim::ClockRational{ 2, 1 };
-					clocks.push_back({ clocks[parent].clk.deriveClock(cfg), nextPs++ }); hist["clk.derived.freq"]++; break;
+					addDerived(parent, cfg, false); hist["clk.derived.freq"]++; break;
 				case 4:
 					cfg.name = "drv" + std::to_string(i);
-					clocks.push_back({ clocks[parent].clk.deriveClock(cfg), nextPs++ }); hist["clk.derived.name"]++; break;
+					addDerived(parent, cfg, false); hist["clk.derived.name"]++; break;
 				case 5:
 					cfg.phaseSynchronousWithParent = false;
-					clocks.push_back({ clocks[parent].clk.deriveClock(cfg), nextPs++ }); hist["clk.derived.phase"]++; break;
+					addDerived(parent, cfg, false); clocks.back().phaseSync = false; hist["clk.derived.phase"]++; break;
 				default: { // frequency multiplier 1/1 given explicitly: same pin
 					cfg.frequencyMultiplier = hlim::ClockRational{ 1, 1 };
-					clocks.push_back({ clocks[parent].clk.deriveClock(cfg), clocks[parent].ps }); hist["clk.derived.samepin"]++; break;
+					addDerived(parent, cfg, true); break;
 				}
 			}
 		}
 	}
 
 	void stInput() {
-		if (rng.chance(1, 15)) { // pin outside any user ClockScope: default clock
-			add(pinIn(4_b), { clocks[0].ps }); hist["pinIn.defaultclock"]++;
-		} else if (rng.chance(1, 15)) { // pin whose clock slot is emptied through the hlim API: UNKNOWN domain
+		if (multiDomain && rng.chance(1, 15)) { // pin outside any user ClockScope: default clock
+			add(pinIn(4_b), { defaultPs }); hist["pinIn.defaultclock"]++;
+		} else if (multiDomain && rng.chance(1, 15)) { // pin whose clock slot is emptied through the hlim API: UNKNOWN domain
 			auto pin = pinIn(4_b);
 			pin.node()->setClockDomain(nullptr);
 			add(pin, { UNK }); hist["pinIn.noclock"]++;
@@ -344,7 +358,15 @@ struct Gen {
 	}
 
 	void stMux() {
-		GSig &c = pickSig(); GSig &a = pickCompat(domainOf(c)); GSig &b = pickCompat(join(domainOf(c), domainOf(a)));
+		// (a constant selector or identical data inputs would let post-processing fold the mux away, and with it the meeting of its operands)
+		GSig *cp = &pickSig();
+		for (int t = 0; t < 20 && cp->labels.empty(); t++) cp = &pickSig();
+		if (cp->labels.empty()) cp = &newInput(pickClock());
+		GSig &c = *cp; GSig &a = pickCompat(domainOf(c));
+		GSig *bp = &pickCompat(join(domainOf(c), domainOf(a)));
+		for (int t = 0; t < 20 && bp == &a; t++) bp = &pickCompat(join(domainOf(c), domainOf(a)));
+		if (bp == &a) bp = &newInput(pickClockFor(join(domainOf(c), domainOf(a))));
+		GSig &b = *bp;
 		std::set<int> l = a.labels; l.insert(b.labels.begin(), b.labels.end()); l.insert(c.labels.begin(), c.labels.end());
 		meet({ &c.labels, &a.labels, &b.labels });
 		UInt r = a.sig;
@@ -385,7 +407,11 @@ struct Gen {
 
 	// move a signal to another clock domain: marked correctly / marked wrongly / unmarked
 	void stCross() {
-		GSig &a = pickSig();
+		// (constant propagation folds a marker with a constant input away, and with it whatever its declared clocks would have caused)
+		GSig *ap = &pickSig();
+		for (int t = 0; t < 20 && ap->labels.empty(); t++) ap = &pickSig();
+		if (ap->labels.empty()) ap = &newInput(pickClock());
+		GSig &a = *ap;
 		size_t dst = pickClock();
 		bool w = wild();
 		unsigned how = w ? 50 + (unsigned)rng.below(50) : 0;
@@ -397,7 +423,11 @@ struct Gen {
 			if (rng.chance(1, 4)) {
 				scl::SynchronizeParams p; p.outStages = 2; p.inStage = rng.chance(1, 2);
 				UInt r = scl::synchronize(a.sig, clocks[src].clk, clocks[dstDecl].clk, p);
-				add(r, { clocks[dstDecl].ps }); hist["cross.synchronize"]++;
+				// synchronize() puts its registers on a clock derived from the destination clock (same name/frequency): same pin iff phase synchronous
+				int regPs = clocks[dstDecl].phaseSync ? clocks[dstDecl].ps : nextPs++;
+				std::set<int> ml{ clocks[dstDecl].ps };
+				meet({ &ml }, regPs);
+				add(r, { regPs }); hist["cross.synchronize"]++;
 			} else {
 				UInt r = allowClockDomainCrossing(a.sig, clocks[src].clk, clocks[dstDecl].clk);
 				GSig &m = add(r, { clocks[dstDecl].ps });
@@ -447,7 +477,9 @@ struct Gen {
 			memOrderLabels = l; hist["mem.read"]++;
 		} else { // write port: address, wrData, orderAfter
 			GSig &data = pickCompat(join(domainOf(addr), od));
-			size_t c = pickClockFor(join(join(domainOf(addr), domainOf(data)), od));
+			// memory detection insists that all write ports of a memory use the very same clock ("All write ports to a memory must have the same clock!")
+			if (memWriteClk == ~size_t(0)) memWriteClk = pickClockFor(join(join(domainOf(addr), domainOf(data)), od));
+			size_t c = memWriteClk;
 			meet({ &addr.labels, &data.labels, order ? &memOrderLabels : &none }, clocks[c].ps);
 			std::set<int> l = addr.labels; l.insert(data.labels.begin(), data.labels.end()); if (order) l.insert(memOrderLabels.begin(), memOrderLabels.end());
 			ClockScope cs(clocks[c].clk);
@@ -483,6 +515,7 @@ struct Gen {
 	}
 
 	void build(size_t nst, bool multi) {
+		multiDomain = multi;
 		makeClocks();
 		if (!multi) { // single-domain design: must always be accepted
 			int ps0 = clocks[1].ps;
@@ -532,9 +565,11 @@ struct Gen {
 
 // ------------------------------------------------------------------------------------------------
 
-static void runCase(uint64_t id, Rng rng, size_t nst)
+static void runCase(uint64_t id, Rng rng, size_t nstParam)
 {
-	o << "case " << id << ' ' << rng.s << '\n';
+	// replay of exactly this design: c12 replay <subseed> <statements>
+	o << "case " << id << ' ' << rng.s << ' ' << nstParam << '\n';
+	size_t nst = nstParam ? 1 + rng.below(2 * nstParam) : 0;
 	DesignScope design;
 	Gen gen(rng);
 	bool multi = !rng.chance(1, 10);
@@ -551,28 +586,46 @@ static void runCase(uint64_t id, Rng rng, size_t nst)
 	for (auto &h : gen.hist) o << ' ' << h.first << '=' << h.second;
 	o << '\n';
 	dumpGraph("pre", design.getCircuit());
-	std::string verdict = "ok";
+	std::string verdict = "ok", msg;
 	try { design.postprocess(); }
 	catch (const gtry::utils::DesignError &e) {
-		std::string w = e.what();
-		verdict = (w.find("Unintentional clock domain crossing") != std::string::npos) ? "cdc" : "otherdesignerror";
+		msg = e.what();
+		verdict = (msg.find("Unintentional clock domain crossing") != std::string::npos) ? "cdc" : "otherdesignerror";
 	}
-	catch (const gtry::utils::InternalError &e) { verdict = "internalerror"; }
-	catch (const std::exception &e) { verdict = "exception"; }
+	catch (const gtry::utils::InternalError &e) { verdict = "internalerror"; msg = e.what(); }
+	catch (const std::exception &e) { verdict = "exception"; msg = e.what(); }
 	o << "postprocess " << verdict << '\n';
+	if (verdict != "ok" && verdict != "cdc") {
+		std::replace(msg.begin(), msg.end(), '\n', ' ');
+		o << "errmsg " << msg.substr(0, 300) << '\n';
+	}
 	dumpGraph("post", design.getCircuit());
 	o << "end\n";
 }
 
+static std::string g_scratch;
+static void cleanup()
+{
+	if (g_scratch.empty()) return;
+	std::error_code ec;
+	std::filesystem::current_path("/", ec);
+	std::filesystem::remove_all(g_scratch, ec);
+	g_scratch.clear();
+}
+static void onSignal(int) { cleanup(); _exit(3); }
+
 int main(int argc, char **argv)
 {
-	uint64_t seed = vh::argU64(argc, argv, 1, 1), ncases = vh::argU64(argc, argv, 2, 100), nst = vh::argU64(argc, argv, 3, 25);
+	bool replay = argc > 1 && std::string(argv[1]) == "replay";
+	uint64_t seed = replay ? 0 : vh::argU64(argc, argv, 1, 1), ncases = vh::argU64(argc, argv, 2, 100), nst = vh::argU64(argc, argv, 3, 25);
 	std::ios::sync_with_stdio(false);
+	signal(SIGPIPE, onSignal); signal(SIGTERM, onSignal); signal(SIGINT, onSignal);
 	// Circuit::postprocess writes CDC_partial.dot / CDC_full.dot and runs `dot` through system() for every rejection:
 	// work in a scratch directory, with a do-nothing `dot` first in PATH, and keep the children's stderr out of the pipe.
 	char tmpl[] = "/tmp/c12-XXXXXX";
 	char *scratch = mkdtemp(tmpl);
 	if (!scratch) { perror("mkdtemp"); return 2; }
+	g_scratch = scratch;
 	{
 		std::ofstream f(std::string(scratch) + "/dot");
 		f << "#!/bin/sh\nexit 0\n";
@@ -584,16 +637,16 @@ int main(int argc, char **argv)
 	int devnull = open("/dev/null", O_WRONLY);
 	if (devnull >= 0) dup2(devnull, 2);
 
-	Rng top(seed * 0x100000001b3ull + 12);
-	o << "# prop=C12 seed=" << seed << " cases=" << ncases << " statements=" << nst << "\n";
-	for (uint64_t k = 0; k < ncases; k++) {
-		Rng rng = top.fork();
-		size_t n = nst ? 1 + rng.below(2 * nst) : 0;
-		runCase(k, rng, n);
+	if (replay) {
+		o << "# prop=C12 replay subseed=" << ncases << " statements=" << nst << "\n";
+		runCase(0, Rng(ncases), nst);
+	} else {
+		Rng top(seed * 0x100000001b3ull + 12);
+		o << "# prop=C12 seed=" << seed << " cases=" << ncases << " statements=" << nst << "\n";
+		for (uint64_t k = 0; k < ncases; k++)
+			runCase(k, top.fork(), nst);
 	}
 	o.flush();
-	std::error_code ec;
-	std::filesystem::current_path("/", ec);
-	std::filesystem::remove_all(scratch, ec);
+	cleanup();
 	return 0;
 }
